@@ -391,3 +391,18 @@ package common
 //@ func AddressParseFromBytes
 //@   property C04
 //@   ensures len(f) != 20 ==> r1 != nil
+
+// WriteString is WriteVarBytes of the string's bytes: same length prefix, same growth, earlier bytes kept
+//@ func (*ZeroCopySink).WriteString
+//@   property C01
+//@   modifies self.buf, elems(self.buf)
+//@   ensures ref(self.buf) == old(ref(self.buf)) || fresh(ref(self.buf))
+//@   ensures size == varlen(uint64(len(data))) + uint64(len(data)) && uint64(len(self.buf)) == uint64(len(old(self.buf))) + size
+//@   ensures forall i uint64 :: i < uint64(len(old(self.buf))) ==> self.buf[i] == old(self.buf[i])
+//@   ensures isVarUintAt(self.buf, uint64(len(old(self.buf))), uint64(len(data)))
+
+// Reset empties the sink in place: same backing array, same capacity
+//@ func (*ZeroCopySink).Reset
+//@   property C01
+//@   modifies self.buf
+//@   ensures len(self.buf) == 0 && ref(self.buf) == ref(old(self.buf)) && off(self.buf) == off(old(self.buf)) && cap(self.buf) == cap(old(self.buf))
